@@ -200,6 +200,14 @@ def run(ctx):
 
     # ---------------- T1 batch membership
     rows, probs = batch_conditions(ctx, K)
+    if probs and not rows:
+        # not the nested-loop shape: read the push sites whatever feeds them (an iterator pipeline over all active
+        # mappings and all their outputs)
+        from . import c05
+        rows2, probs2 = c05.batch_push_rows(ctx, K)
+        if rows2 and not probs2 and all("every-active-mapping-and-every-output-visited" in r for r in rows2):
+            rows = [frozenset(r - {"every-active-mapping-and-every-output-visited", "M-in-active_mappings"}) for r in rows2]
+            probs = []
     ck.ob("C04-T1", RAM, "batch-loops-shape", not probs, detail="; ".join(probs)[:300] or None)
     want = frozenset({"action_mapping", "len>1", "any_modifier", "in_MO", "!in_batch"})
     ck.ob("C04-T1", RAM, "collecting-paths-found", len(rows) >= 1, detail="%d" % len(rows))
